@@ -1,0 +1,59 @@
+//go:build verif
+
+package keyproof
+
+import "github.com/privacybydesign/gabi/big"
+
+// Exported wrappers around the unexported component provers/verifiers of the
+// quasi-safe-prime-product proof, for the external verification harness.
+
+func VerifSquareFreeBuildProof(N, phiN, challenge, index *big.Int) SquareFreeProof {
+	return squareFreeBuildProof(N, phiN, challenge, index)
+}
+func VerifSquareFreeVerifyStructure(p SquareFreeProof) bool { return squareFreeVerifyStructure(p) }
+func VerifSquareFreeVerifyProof(N, challenge, index *big.Int, p SquareFreeProof) bool {
+	return squareFreeVerifyProof(N, challenge, index, p)
+}
+
+func VerifPrimePowerProductBuildProof(P, Q, challenge, index *big.Int) PrimePowerProductProof {
+	return primePowerProductBuildProof(P, Q, challenge, index)
+}
+func VerifPrimePowerProductVerifyStructure(p PrimePowerProductProof) bool {
+	return primePowerProductVerifyStructure(p)
+}
+func VerifPrimePowerProductVerifyProof(N, challenge, index *big.Int, p PrimePowerProductProof) bool {
+	return primePowerProductVerifyProof(N, challenge, index, p)
+}
+
+func VerifDisjointPrimeProductBuildProof(P, Q, challenge, index *big.Int) DisjointPrimeProductProof {
+	return disjointPrimeProductBuildProof(P, Q, challenge, index)
+}
+func VerifDisjointPrimeProductVerifyStructure(p DisjointPrimeProductProof) bool {
+	return disjointPrimeProductVerifyStructure(p)
+}
+func VerifDisjointPrimeProductVerifyProof(N, challenge, index *big.Int, p DisjointPrimeProductProof) bool {
+	return disjointPrimeProductVerifyProof(N, challenge, index, p)
+}
+
+// VerifAlmostSafePrimeProductBuild runs commit and response phases of the honest prover.
+func VerifAlmostSafePrimeProductBuild(Pprime, Qprime, challenge, index *big.Int) ([]*big.Int, AlmostSafePrimeProductProof) {
+	list, commit := almostSafePrimeProductBuildCommitments(nil, Pprime, Qprime)
+	return list, almostSafePrimeProductBuildProof(Pprime, Qprime, challenge, index, commit)
+}
+func VerifAlmostSafePrimeProductVerifyStructure(p AlmostSafePrimeProductProof) bool {
+	return almostSafePrimeProductVerifyStructure(p)
+}
+func VerifAlmostSafePrimeProductVerifyProof(N, challenge, index *big.Int, p AlmostSafePrimeProductProof) bool {
+	return almostSafePrimeProductVerifyProof(N, challenge, index, p)
+}
+
+func VerifQuasiSafePrimeProductBuild(Pprime, Qprime, challenge *big.Int) QuasiSafePrimeProductProof {
+	_, commit := quasiSafePrimeProductBuildCommitments(nil, Pprime, Qprime)
+	return quasiSafePrimeProductBuildProof(Pprime, Qprime, challenge, commit)
+}
+func VerifQuasiSafePrimeProductVerifyStructure(p QuasiSafePrimeProductProof) bool {
+	return quasiSafePrimeProductVerifyStructure(p)
+}
+func VerifQuasiSafePrimeProductVerifyProof(N, challenge *big.Int, p QuasiSafePrimeProductProof) bool {
+	return quasiSafePrimeProductVerifyProof(N, challenge, p)
+}
